@@ -257,6 +257,8 @@ pub open spec fn port_indexes_ok(st: &ParseState) -> bool {
 		res is Ok ==> (*final(state)).game.frames == (*old(state)).game.frames && (*final(state)).game.start == (*old(state)).game.start && (*final(state)).game.end == (*old(state)).game.end
 			&& (*final(state)).game.gecko_codes == (*old(state)).game.gecko_codes && (*final(state)).game.quirks == (*old(state)).game.quirks && (*final(state)).game.hash == (*old(state)).game.hash
 			&& (*final(state)).bytes_read == (*old(state)).bytes_read /*[C12.metadata_touches_nothing_else]*/,
+		// the element is the one keyed "metadata" (the U marker is read by the caller): length byte 8, the key, the map opening
+		res is Ok ==> (*old(r)).rest().len() >= 10 && (*old(r)).rest().subrange(0, 10) == seq![0x08u8, 0x6d, 0x65, 0x74, 0x61, 0x64, 0x61, 0x74, 0x61, 0x7b] /*[C16.metadata_key_bytes]*/,
 //@end
 
 #[verifier::external_body]
